@@ -1,4 +1,7 @@
 import MxlVerif.Lemmas.C12Closure2
+import MxlVerif.Lemmas.C12Deriv
+import MxlVerif.Lemmas.C12SimHist
+import MxlVerif.Generated.C12Glue
 import MxlVerif.Model.C12Witness
 namespace Mxl.C12
 
@@ -54,6 +57,37 @@ theorem C12_jacobian_is_derivative_of_rhs (sc : SContent) (hwf : sc.wf = true) (
         dsh[i]? = some (evalS (symEnv sc cache xs) e + h * evalS (symEnv sc cache xs) (D x e)
                           + h * h * remV (symEnv sc cache xs) x h e) :=
   jac_of_rhs sc hwf t xs j h es ds0 dsh hj hs h0 hh
+
+/-- **the formal derivative IS the derivative** (Mathlib's `HasDerivAt` over the normed field ℚ, the model's own
+    evaluator): for every expression of the rate-law fragment (`+ − × ÷`, unary minus, natural powers), every
+    symbol `x` and every environment at which no denominator vanishes, `v ↦ e[x := v]` is differentiable at
+    `ρ x` with derivative the value of `D x e`.  (`C12_formal_deriv_correct` above is the explicit second-order
+    expansion; this is the limit statement.) -/
+theorem C12_formal_deriv_hasDerivAt (ρ : Name → Rat) (x : Name) (e : SExpr) (hd : DenOK ρ e) :
+    HasDerivAt (fun v : ℚ => evalS (upd ρ x v) e) (evalS ρ (D x e)) (ρ x) :=
+  hasDerivAt_evalS_self ρ x e hd
+
+/-- … at any base value `a` of the symbol, not only the environment's own -/
+theorem C12_formal_deriv_hasDerivAt_at (ρ : Name → Rat) (x : Name) (a : Rat) (e : SExpr)
+    (hd : DenOK (upd ρ x a) e) :
+    HasDerivAt (fun v : ℚ => evalS (upd ρ x v) e) (evalS (upd ρ x a) (D x e)) a :=
+  hasDerivAt_evalS ρ x a e hd
+
+/-- **the symbolic Jacobian is the derivative of the numeric right-hand side** (`HasDerivAt`).  For every
+    well-formed model that converts, every time, state and coordinate `j`: let `F v` be what `Model.__call__`
+    returns when the `j`-th state value is `v` (the others as in `xs`).  Then component `i` of `F` is
+    differentiable at `xs[j]` and its derivative is entry `(i, j)` of `jacobianOf es var_names` evaluated at the
+    state and the model's parameter values — at every state at which no denominator of equation `i` vanishes. -/
+theorem C12_jacobian_hasDerivAt (sc : SContent) (hwf : sc.wf = true) (t : Rat) (xs : List Rat) (j : Nat)
+    (es : List SExpr) (hj : j < xs.length) (hs : toSymbolic sc = .ok es)
+    (F : Rat → List Rat) (hF : ∀ v, callRhs sc.toContent t (xs.set j v) = .ok (F v)) :
+    ∃ cache x, createCache sc.toContent = .ok cache ∧ cache.varNames[j]? = some x ∧
+      ∀ (i : Nat) (e : SExpr), es[i]? = some e → DenOK (symEnv sc cache xs) e →
+        ((jacobianOf es cache.varNames)[i]?.bind (·[j]?)) = some (D x e) ∧
+        HasDerivAt (fun v : ℚ => (F v).getD i 0) (evalS (symEnv sc cache xs) (D x e)) xs[j] := by
+  obtain ⟨cache, x, hc, hx, h⟩ := jac_hasDerivAt sc hwf t xs j es hj hs F hF
+  refine ⟨cache, x, hc, hx, fun i e hie hd => ⟨?_, h i e hie hd⟩⟩
+  simp only [jacobianOf, List.getElem?_map, hie, Option.map_some, Option.bind_some, hx]
 
 /-- **order independence (full statement).**  Take a well-formed model built from functions
     that translate, whose derived quantities and reactions mention only variables, plain
@@ -136,6 +170,104 @@ theorem C12_closure_follows_parameters (c now : SContent) (hwf : now.wf = true) 
   have h := closure_follows c now cl cl' t xs J hi hcase hcall
   exact ⟨h, jacfn_sound now hwf t xs J h⟩
 
+/-! ### the `use_jacobian` glue of the Simulator, with the facts read from the current source -/
+
+/-- **the glue of the current source is the glue the model was written after**: `translate/c12.py` reads
+    `Simulator._initialise_integrator` (argument order of `lambdify`, where the closure takes the current
+    parameter values from, recompile-on-change, which values are remembered and passed, what the `except`
+    clause catches and does, what the integrator receives, which methods re-initialise) into `Generated.glue`;
+    every fact the state machine depends on is as `GlueOk` requires.  (`decide` on the generated record.) -/
+theorem C12_glue_generated : GlueOk Generated.glue = true := by decide
+
+/-- `solve_ivp` gets `jac=self.jacobian` for every method of `Scipy.method`'s `Literal`; the three implicit
+    ones (the only ones of scipy that use a Jacobian) are among them, so the harness's trajectory stratum
+    (which takes its method list from this generated definition) covers every Jacobian-using method. -/
+theorem C12_scipy_methods_generated :
+    ["Radau", "BDF", "LSODA"].all (Generated.scipyMethods.contains ·) = true := by decide
+
+/-- **every history of the Simulator.**  Build `Simulator(model, use_jacobian=True)` on `c` and apply ANY
+    sequence of `update_parameter(s)` / `scale_parameter(s)` / protocol steps (`setPar`), any other edit of the model
+    the Simulator holds (`edit c'`: `sim.model.update_reaction(...)`, `update_derived`, `add_*`, `remove_*` — afterwards
+    the content is `c'`), `clear_results` / `update_variable(s)` (`reinit`) and Jacobian calls by the integrator
+    (`call t x`), with the glue as it is in the current source.  Then (`GoodOuts`) every matrix the integrator
+    receives is exactly what `jac_fn(t, x)` of a Simulator freshly built on the model's content AT THAT MOMENT returns —
+    for a well-formed model: `D` of its current equations at the state passed and at its current parameter values
+    (derived parameters and computed coefficients included) — and the integrator runs without a Jacobian only if a
+    conversion failed when the integrator was built.  Generalises `C12_closure_follows_parameters` from one step to
+    all histories and from parameter updates to all edits (after `fix: recompile the Jacobian when the model was
+    edited`, F-C12-5: the closure watches the model's cache object, which every editing method invalidates). -/
+theorem C12_sim_history (c : SContent) (ops : List SimOp) (s0 s : SimState) (outs : List SimOut)
+    (h0 : simInitG Generated.glue c = .ok s0) (hr : runG Generated.glue s0 ops = .ok (s, outs)) :
+    GoodOuts c ops outs :=
+  sim_history Generated.glue C12_glue_generated c ops s0 s outs h0 hr
+
+/-- **no needless compilation.**  After any history, if the closure the integrator holds remembers the model's current
+    cache object (nothing was edited since it was compiled), the next Jacobian call does not compile again: the
+    conversion and `lambdify` run once per change of the model, not once per call. -/
+theorem C12_no_needless_recompile (c : SContent) (ops : List SimOp) (s0 s : SimState) (outs : List SimOut)
+    (h0 : simInitG Generated.glue c = .ok s0) (hr : runG Generated.glue s0 ops = .ok (s, outs))
+    (cl : JacClosure) (ver : Nat) (hj : s.jac = some (cl, ver)) (hver : ver = s.version) :
+    s.recompilesG Generated.glue = false :=
+  no_needless_recompile Generated.glue s (sim_history_inv Generated.glue C12_glue_generated c ops s0 s outs h0 hr) cl ver hj hver
+
+/-- why watching the parameter VALUES alone (the closure before the repair of F-C12-5) was enough for the Simulator's
+    own methods: after parameter updates only (`ParUpd`: same declarations, a parameter keeps its value, gets another
+    one, or — if it was given by an initial assignment — gets a plain one), an equal tuple of plain-parameter values
+    means the very same content, so an unchanged tuple never hides a change. -/
+theorem C12_values_determine_content (c now : SContent) (h : ParUpd c now) (vn pn vn' pn' : List Name)
+    (vals : List Rat) (hc : jacArgs c = .ok (vn, pn, vals)) (hn : jacArgs now = .ok (vn', pn', vals)) : now = c :=
+  ParUpd.same c now h vn pn vn' pn' vals hc hn
+
+/-- … and `ParUpd` is what `update_parameter` histories produce -/
+theorem C12_setPar_is_parUpd (c : SContent) (kvs : List (Name × Rat)) :
+    ParUpd c (kvs.foldl (fun c kv => c.setPar kv.1 kv.2) c) := by
+  suffices h : ∀ now, ParUpd c now → ParUpd c (kvs.foldl (fun c kv => c.setPar kv.1 kv.2) now) from h c (ParUpd.refl c)
+  induction kvs with
+  | nil => intro now h; exact h
+  | cons kv kvs ih => intro now h; exact ih _ (ParUpd.step c now kv.1 kv.2 h)
+
+/-- with the facts of the current source the constructor never raises because of the conversion: it installs the
+    closure or falls back; without `use_jacobian` nothing is compiled -/
+theorem C12_glue_refines (c : SContent) :
+    installG Generated.glue true c = .ok (installJac c) ∧ installG Generated.glue false c = .ok none :=
+  ⟨installG_eq _ C12_glue_generated c, by
+    unfold installG; simp [(glueOk_facts _ C12_glue_generated).2.2.2.2.2.2.2.2.2.2.2.2.2]⟩
+
+/-- each repair of the glue is needed: without recompiling, without remembering the new values, with the
+    remembered instead of the current values passed, with a narrower `except`, with names from another source, or
+    without watching the model's cache object, the facts are rejected -/
+theorem C12_glue_repairs_needed :
+    GlueOk { expectedGlue with recompileOnChange := false } = false ∧
+    GlueOk { expectedGlue with storesValues := false } = false ∧
+    GlueOk { expectedGlue with callArgs := ["t", "x", "list(compiled)"] } = false ∧
+    GlueOk { expectedGlue with catchesAll := false } = false ∧
+    GlueOk { expectedGlue with lambdifyArgs := ["'time'", "model.get_variable_names()", "model.get_parameter_names()"] } = false ∧
+    GlueOk glueBeforeWatch = false := by
+  decide
+
+/-- F-C12-5, the witness: with the glue as it was before the repair (parameter values watched, the model not), replace
+    the rate law of the Michaelis–Menten witness's second reaction (`sim.model.update_reaction`) and let the integrator
+    call the Jacobian: it gets the matrix of the OLD model, which is not the Jacobian of the current one; with the
+    repaired glue it gets the current one. -/
+theorem C12_edit_needs_watch :
+    histOuts glueBeforeWatch witnessMM [.edit witnessMMEdited, .call 0 [1, 2]] = some [.upd, outOf (jacAt witnessMM [1, 2])] ∧
+    histOuts expectedGlue witnessMM [.edit witnessMMEdited, .call 0 [1, 2]] = some [.upd, outOf (jacAt witnessMMEdited [1, 2])] ∧
+    jacAt witnessMM [1, 2] ≠ jacAt witnessMMEdited [1, 2] ∧ (jacAt witnessMMEdited [1, 2]).isSome = true :=
+  ⟨by decide +kernel, by decide +kernel, by decide +kernel, by decide +kernel⟩
+
+/-- **exception safety of the closure** (seed C12-r4-1's direction): the model is edited into one that does not convert
+    (a rate law that takes `time`), the integrator calls the Jacobian — the compilation raises, the exception escapes —
+    and calls it again (the next `simulate`).  With the glue of the current source the closure remembers nothing from
+    the failed attempt: the second call compiles again and raises again.  With the two statements of the recompile
+    branch in the other order (`compileBeforeStore := false`: remember first, compile then) the second call is
+    answered with the matrix compiled for the OLD model. -/
+theorem C12_failed_recompile_not_remembered :
+    histOuts expectedGlue witnessMM [.edit witnessMMTime, .call 0 [1, 2], .call 0 [1, 2]] = some [.upd, .raised, .raised] ∧
+    histOuts glueStoreFirst witnessMM [.edit witnessMMTime, .call 0 [1, 2], .call 0 [1, 2]]
+      = some [.upd, .raised, outOf (jacAt witnessMM [1, 2])] ∧
+    jacAt witnessMMTime [1, 2] = none ∧ GlueOk glueStoreFirst = false :=
+  ⟨by decide +kernel, by decide +kernel, by decide +kernel, by decide⟩
+
 /-- the equations mention only variable symbols, plain-parameter symbols and data symbols (never
     `time`, a reaction, a derived quantity or a library function's own argument name) -/
 theorem C12_eqs_symbols (sc : SContent) (es : List SExpr) (h : toSymbolic sc = .ok es) :
@@ -178,5 +310,24 @@ example : witnessMM.wf = true := by decide +kernel
 example : isOk (toSymbolic witnessMM) = true := by decide +kernel
 example : isOk (callRhs witnessMM.toContent 0 [1, 2]) = true := by decide +kernel
 example : (simJacobian witnessMM).isSome = true := by decide +kernel
+
+-- `C12_formal_deriv_hasDerivAt` is not vacuous: Michaelis–Menten `vmax·s/(km+s)` at `s = vmax = km = 2` has no
+-- vanishing denominator, and its derivative there is `(2·4 − 4·1)/16 = 1/4`
+example : DenOK (fun _ => 2) (.div (.mul (.sym "vmax") (.sym "s")) (.add (.sym "km") (.sym "s"))) := by
+  refine ⟨⟨trivial, trivial⟩, ⟨trivial, trivial⟩, ?_⟩
+  show (2 : Rat) + 2 ≠ 0
+  decide +kernel
+example : evalS (fun _ => 2) (D "s" (.div (.mul (.sym "vmax") (.sym "s")) (.add (.sym "km") (.sym "s")))) = 1 / 4 := by
+  decide +kernel
+
+-- `C12_sim_history` is not vacuous: on the Michaelis–Menten witness the history
+-- call, update a parameter, call, update it back, call, re-initialise, call  runs through and hands over four matrices,
+-- and without recompiling (the unrepaired closure) the second matrix is the stale one
+example : (do let s0 ← simInitG Generated.glue witnessMM
+              let r ← runG Generated.glue s0 [.call 0 [1, 2], .setPar "c2" 7, .call 0 [1, 2], .setPar "c2" 5,
+                                              .call 0 [1, 2], .reinit, .call 0 [1, 2], .edit witnessMMEdited, .call 0 [1, 2]]
+              pure (r.2.map fun (o : SimOut) => match o with | .mat _ => true | _ => false) : Except Err (List Bool)) =
+            .ok [true, false, true, false, true, false, true, false, true] := by
+  decide +kernel
 
 end Mxl.C12
